@@ -274,3 +274,8 @@ CLAIM = {
     'note': 'trusted: clang 14 front end; return-convention table; function-pointer slot resolution from the setup '
             'functions; purge = dc_data assigned NULL, poison = set_error_wf(fatal>=1)',
 }
+
+
+# SESSION7 additions to the claim (clauses added in DESIGN section 12)
+CLAIM['technique'] += '; digest-intact typestate on the chunk verdict; static inventory restricted to unit decoding'
+CLAIM['text'] += ' C15-d (extended): the computed chunk digest is compared as computed. C15-e: unit decoding keeps nothing in static storage.'
